@@ -96,9 +96,26 @@ CLAIMED["C04"] = (
     "DESIGN.md section 5, C04",
 )
 
+CLAIMED["C15"] = (
+    "vterm",
+    "exploration",
+    "urwid.vterm.TermCanvas is fed seeded program output (reference subset: printable runs with autowrap, CR/LF/BS, cursor "
+    "addressing, EL/ED, ICH/DCH/ECH, IL/DL, DECSTBM, IND/RI/NEL, SGR colours, DSR/CPR/DA; outside it: tabs, modes, charsets, OSC, "
+    "huge/zero/missing parameters, truncated sequences, C1 bytes, invalid UTF-8, random bytes) chunked at sampled byte boundaries, "
+    "with resizes at any byte boundary, scroll-back moves and focus changes in between. Checked after every piece: no exception, "
+    "grid/cursor/region/canvas-shape invariants, well-formed replies, chunking invariance, and cell-by-cell agreement (text, cursor, "
+    "colours, replies, scroll-back) with RefTerm dialect V while the stream stays in the named subset. Sampling, not proof.",
+    "Trusts RefTerm as the VT100 reference (hand-written from the DEC/xterm documents); comparison stops where terminals are not "
+    "uniform (non-printing operations on a pending wrap, column after IL/DL, erase under reverse video); parameters capped at 10^5; "
+    "three known findings of the SGR colour state mask colour comparisons of streams that trigger them; the Terminal widget layer "
+    "(pty, fork, read chunks, hang-up) is not covered.",
+    "deterministic simulation: seeded output chunking and resize placement, reference-terminal (VT100 model) oracle",
+    "DESIGN.md section 5, C15",
+)
+
 PENDING = {
     p: "claimed in DESIGN.md; its simulation engine is not built yet in this tree, so no check is registered for it at this commit"
-    for p in ("C06", "C07", "C08", "C10", "C15", "C20")
+    for p in ("C06", "C07", "C08", "C10", "C20")
 }
 
 
